@@ -78,6 +78,21 @@ func vkSeedWorld(w *vkSrvWorld) {
 		m.Answer = []dns.RR{vkRR("cn.t. 300 IN CNAME hit.t.")}
 		return m
 	}
+	// an alias whose upstream answer carried a real (non-OPT) additional record and, for cnns.t., an
+	// authority section: every section of the stored alias must reach the client on every path
+	sc["cnx.t."] = func(req *dns.Msg) *dns.Msg {
+		m := vkReplyTo(req)
+		m.Answer = []dns.RR{vkRR("cnx.t. 300 IN CNAME hit.t.")}
+		m.Extra = []dns.RR{vkRR("ns1.t. 300 IN A 192.0.2.53")}
+		return m
+	}
+	sc["cnns.t."] = func(req *dns.Msg) *dns.Msg {
+		m := vkReplyTo(req)
+		m.Answer = []dns.RR{vkRR("cnns.t. 300 IN CNAME hit.t.")}
+		m.Ns = []dns.RR{vkRR("t. 300 IN NS ns1.t.")}
+		m.Extra = []dns.RR{vkRR("ns1.t. 300 IN A 192.0.2.53")}
+		return m
+	}
 	// validated alias (AD=1) whose target was validated when the alias was admitted and is
 	// re-admitted unvalidated afterwards: the only way both stored pieces end up AD=1 / AD=0
 	tgtAD := true
@@ -207,7 +222,7 @@ func vkSeedWorld(w *vkSrvWorld) {
 	}
 	// admission: ask each once through the decoded entry, DO set so the complete answer is stored
 	client := netip.MustParseAddrPort("198.51.100.7:5300")
-	for _, n := range []string{"hit.t.", "sig.t.", "tgt.t.", "cn.t.", "cnad.t.", "cnsig.t.", "cnu.t.", "nx.t.", "nd.t.", "ede.t.", "big.t.", "mid.t.", "xtra.t.", "sf.t.", "ref.t."} {
+	for _, n := range []string{"hit.t.", "sig.t.", "tgt.t.", "cn.t.", "cnx.t.", "cnns.t.", "cnad.t.", "cnsig.t.", "cnu.t.", "nx.t.", "nd.t.", "ede.t.", "big.t.", "mid.t.", "xtra.t.", "sf.t.", "ref.t."} {
 		for _, cd := range []bool{false, true} {
 			p := vkBasePkt(n, dns.TypeA)
 			p.OPT, p.DO, p.Size, p.CD = true, true, 4096, cd
@@ -218,7 +233,7 @@ func vkSeedWorld(w *vkSrvWorld) {
 	w.serve(vkPathDecoded, "tcp", client, p.build())
 }
 
-var vkSrvTargets = []string{"hit.t.", "cn.t.", "cnad.t.", "tgt.t.", "cnsig.t.", "cnu.t.", "sig.t.", "nx.t.", "x.nx.t.", "nxa.t.", "nd.t.", "ede.t.", "big.t.", "mid.t.", "xtra.t.", "optup.t.", "sf.t.", "ref.t.", "miss.t.", "hosts.t.", "1.10.in-addr.arpa.", "."}
+var vkSrvTargets = []string{"hit.t.", "cn.t.", "cnx.t.", "cnns.t.", "cnad.t.", "tgt.t.", "cnsig.t.", "cnu.t.", "sig.t.", "nx.t.", "x.nx.t.", "nxa.t.", "nd.t.", "ede.t.", "big.t.", "mid.t.", "xtra.t.", "optup.t.", "sf.t.", "ref.t.", "miss.t.", "hosts.t.", "1.10.in-addr.arpa.", "."}
 
 func vkSrvConfigs(thorough bool) []vkSrvCfg {
 	cfgs := []vkSrvCfg{
